@@ -132,6 +132,9 @@ POSITIONS = {
     "rm_in_keyval": "literal",
     "rm_in_keycol": "name",
 }
+# probe-only scenario (never drawn by a campaign; it exists so that recorded finding F80 has a replay): the new column is
+# NAMED like the literal's own SQL spelling, extend({"'x'": 'x'}). Judged by execution only.
+PROBE_ONLY = {"extend_lit_samename": "name"}
 # positions where the text is emitted as a string literal (backslash matters for Spark / MySQL there)
 LITERAL_EMITTED = {p for p, k in POSITIONS.items() if k == "literal"} | {"rm_out_entry"}
 
@@ -167,6 +170,10 @@ def build(base: str, s: str) -> Scenario:
         return Scenario(
             td.extend({"qc": Value(s)}), {"qt": (["qk", "qs"], uv)}, ["qk", "qs", "qc"], [[1, "u", s], [2, "v", s]]
         )
+    if base == "extend_lit_samename":
+        td = TableDescription(table_name="qt", column_names=["qk", "qs"])
+        nm = "'" + s.replace("'", "''") + "'"
+        return Scenario(td.extend({nm: Value(s)}), {"qt": (["qk", "qs"], uv)}, ["qk", "qs", nm], [[1, "u", s], [2, "v", s]])
     if base in ("select_cmp", "is_in", "mapv_key"):
         td = TableDescription(table_name="qt", column_names=["qk", "qs"])
         tables = {"qt": (["qk", "qs"], [[1, s], [2, s + "~"]])}
@@ -366,7 +373,7 @@ def exec_available(position: str, dialect: str) -> bool:
 def evaluate(position: str, dialect: str, s: str) -> Tuple[Optional[Tuple[str, str]], str, Optional[str]]:
     """Run one (position, dialect, string). Returns (problem | None, outcome tag, sql | None)."""
     base, annotate = split_position(position)
-    role = POSITIONS[base]
+    role = POSITIONS.get(base) or PROBE_ONLY[base]
     try:
         sc = build(base, s)
     except Exception as e:  # noqa
@@ -382,7 +389,7 @@ def evaluate(position: str, dialect: str, s: str) -> Tuple[Optional[Tuple[str, s
         return ("raised", f"to_sql raised {type(e).__name__}: {msg}"), "raised", None
     if not isinstance(sql, str):
         return ("raised", f"to_sql returned {type(sql)}"), "raised", None
-    problem = check_tokens(position, dialect, s, sql)
+    problem = check_tokens(position, dialect, s, sql) if base in POSITIONS else None
     if problem is None and exec_available(position, dialect):
         problem = check_execution(sc, sql)
     return problem, "checked", sql
